@@ -93,6 +93,13 @@ TraceStep ==
 
 TraceNext == TraceStep
 
+\* NoAlias on the generated names (see SymbolsTrace!NameClash)
+Named == Traces[t].named
+NameClash == l = 1 =>
+  \A i, j \in DOMAIN Named :
+     (i < j /\ GenName(Named[i].b, Named[i].id) = GenName(Named[j].b, Named[j].id)) =>
+        PrintT(<<"CLASH", Traces[t].tid, i, j>>) /\ TRUE
+
 Done    == (l = Len(Ev) + 1) => PrintT(<<"DONE", Traces[t].tid>>)
 Illegal == (bad # <<>>) => PrintT(<<"ILLEGAL", Traces[t].tid, bad[1], bad[2]>>)
 =============================================================================
